@@ -11,6 +11,7 @@ CONSTANTS
   Flaky = {1}
   AnnBy <- AnnAll
   BadFrom = {1, 2}
+  MaxAtt = 4
   MaxHist = 11
   ReannounceLeak = FALSE
 INVARIANTS TypeOK C24_Limit C24_InflightZero C24_Backoff C24_Dropped D_CounterIsInflight
